@@ -601,8 +601,9 @@ func main() {
 	pairList("lookups", "source of the look-up functions of signers/signers.go", lookups)
 	strList("tokenMod", "what `mod` is assigned from in cmdline/token/signcmd.go signCmd", assignsTo(tok, "signCmd", "mod"))
 	strList("remoteMod", "what `mod` is assigned from in cmdline/remotecmd/signcmd.go signCmd", assignsTo(rem, "signCmd", "mod"))
-	fmt.Fprintf(&sb, "def tokenNilTest : Bool := %v\ndef remoteNilTest : Bool := %v\ndef serverNilTest : Bool := %v\n\n",
-		hasCond(tok, "signCmd", "mod.Sign == nil"), hasCond(rem, "signCmd", "mod.Sign == nil"), hasCond(srv, "serveSign", "mod.Sign == nil"))
+	fmt.Fprintf(&sb, "def tokenNilTest : Bool := %v\ndef remoteNilTest : Bool := %v\n\n",
+		hasCond(tok, "signCmd", "mod.Sign == nil"), hasCond(rem, "signCmd", "mod.Sign == nil"))
+	strList("serverRefuse", "conditions under which serveSign returns httperror.ErrUnknownSignatureType", condsReturning(srv, "serveSign", "httperror.ErrUnknownSignatureType"))
 	strList("remoteSigtype", "second argument of values.Add(\"sigtype\", …) in the remote client", callsWithFirstArg(rem, "signCmd", "values.Add", `"sigtype"`))
 	strList("remoteFilename", "second argument of values.Add(\"filename\", …) in the remote client", callsWithFirstArg(rem, "signCmd", "values.Add", `"filename"`))
 	strList("serverMod", "what `mod` is assigned from in serveSign", assignsTo(srv, "serveSign", "mod"))
@@ -618,6 +619,26 @@ func main() {
 		fmt.Fprintln(os.Stderr, err)
 		os.Exit(1)
 	}
+}
+
+// conditions of the if statements of fn whose body ends in `return <what>`
+func condsReturning(f *ast.File, fn, what string) []string {
+	var out []string
+	fd := funcDecl(f, fn)
+	if fd == nil {
+		return []string{"?no " + fn}
+	}
+	ast.Inspect(fd.Body, func(n ast.Node) bool {
+		is, ok := n.(*ast.IfStmt)
+		if !ok || len(is.Body.List) == 0 {
+			return true
+		}
+		if isReturn(is.Body.List[len(is.Body.List)-1]) == what {
+			out = append(out, src(is.Cond))
+		}
+		return true
+	})
+	return out
 }
 
 func isReturn(st ast.Stmt) string {
